@@ -1,7 +1,9 @@
 #!/bin/bash
 # runs the quick (or $1) command of every check claimed in MANIFEST.json, prints one line per check
 tier=${1:-quick}
-cd /verif
+cd "$(dirname "$0")/.."
+# in a snapshot (vp run) evidence and replays stay inside the snapshot
+if [ "$(pwd)" != "/verif" ]; then export VERIF_EVIDENCE_DIR=$(pwd)/evidence VERIF_REPLAY_DIR=$(pwd)/replays VERIF_BUILD=$(pwd)/build; fi
 for id in $(python3 -c "import json;print(' '.join(c['property_id'] for c in json.load(open('MANIFEST.json'))['checks']))"); do
   s=$(date +%s)
   out=$(/usr/bin/time -f "MAXRSS_MB=%M" ./check $id --tier $tier 2>&1); rc=$?
